@@ -121,14 +121,17 @@ Proof.
   apply N.leb_le in H1. lia.
 Qed.
 
+Lemma strip_sign_cons : forall c t, strip_sign (c :: t) =
+  if c =? 43 then (false, t) else if c =? 45 then (true, t) else (false, c :: t).
+Proof.
+  intros c t. destruct c as [|p]; [reflexivity|].
+  do 6 (try (destruct p as [p|p|]; try reflexivity)).
+Qed.
+
 Lemma strip_sign_digit : forall c w, is_digit c = true -> strip_sign (c :: w) = (false, c :: w).
 Proof.
-  intros c w Hc. assert (Hlt := digit_lt_256 _ Hc). destruct (digit_not_sign _ Hc) as [H1 H2].
-  revert Hc H1 H2. 
-  assert (Hin : In c all_bytes) by (apply all_bytes_complete; exact Hlt). clear Hlt.
-  vm_compute in Hin.
-  repeat (destruct Hin as [<-|Hin]; [intros Hc H1 H2; try discriminate Hc; try reflexivity; congruence|]).
-  destruct Hin.
+  intros c w Hc. destruct (digit_not_sign _ Hc) as [H1 H2]. rewrite strip_sign_cons.
+  apply N.eqb_neq in H1. apply N.eqb_neq in H2. rewrite H1, H2. reflexivity.
 Qed.
 
 (* a nonempty digit string followed by white space or a delimiter is read as that integer *)
@@ -195,6 +198,250 @@ Proof.
   rewrite take_regular_app by assumption. rewrite Hk. reflexivity.
 Qed.
 
+(* ---------- real spellings ---------- *)
+Fixpoint split_dot (l : list N) : option (list N * list N) :=
+  match l with
+  | [] => None
+  | 46 :: t => Some ([], t)
+  | c :: t => match split_dot t with Some (a, b) => Some (c :: a, b) | None => None end
+  end.
+
+Lemma parse_number_eq : forall s, parse_number s =
+  let (neg, body) := strip_sign s in
+  match body with
+  | [] => None
+  | _ => if all_digits body then
+           let v := Z.of_N (dec_value body) in Some (StInt (if neg then (- v)%Z else v))
+         else match split_dot body with
+              | Some (a, b) => if all_digits a && all_digits b && negb (Nat.eqb (length a + length b) 0)
+                               then Some (StReal s) else None
+              | None => None
+              end
+  end.
+Proof. reflexivity. Qed.
+
+Lemma split_dot_cons : forall c t, split_dot (c :: t) =
+  if c =? 46 then Some ([], t)
+  else match split_dot t with Some (a, b) => Some (c :: a, b) | None => None end.
+Proof.
+  intros c t. destruct c as [|p]; [reflexivity|].
+  do 6 (try (destruct p as [p|p|]; try reflexivity)).
+Qed.
+
+Definition numch (c : N) : bool := is_digit c || (c =? 43) || (c =? 45) || (c =? 46).
+
+Lemma numch_range : forall c, numch c = true -> 43 <= c <= 57.
+Proof.
+  intros c H. unfold numch, is_digit in H.
+  repeat (apply orb_true_iff in H; destruct H as [H|H]); try (apply N.eqb_eq in H; lia).
+  apply andb_true_iff in H. destruct H as [H1 H2]. apply N.leb_le in H1. apply N.leb_le in H2. lia.
+Qed.
+
+Lemma numch_regular : forall c, numch c = true -> is_regular c = true.
+Proof.
+  intros c H. pose proof (numch_range c H) as Hr.
+  unfold is_regular, is_ws, is_delim.
+  repeat match goal with |- context [c =? ?k] =>
+    replace (c =? k) with false by (symmetry; apply N.eqb_neq;
+      let E := fresh in intros E; subst c; try lia; discriminate H) end.
+  reflexivity.
+Qed.
+
+Lemma all_digits_numch : forall w, all_digits w = true -> forallb numch w = true.
+Proof.
+  induction w as [|c w IH]; intros H; [reflexivity|].
+  cbn [all_digits] in H. apply andb_true_iff in H. destruct H as [Hc Hw].
+  cbn [forallb]. rewrite (IH Hw). unfold numch. rewrite Hc. reflexivity.
+Qed.
+
+Lemma split_dot_numch : forall l a b, split_dot l = Some (a, b) ->
+  all_digits a = true -> all_digits b = true -> forallb numch l = true.
+Proof.
+  induction l as [|c t IH]; intros a b H Ha Hb; [reflexivity|].
+  rewrite split_dot_cons in H. cbn [forallb]. destruct (c =? 46) eqn:E.
+  - apply N.eqb_eq in E. subst c. injection H as <- <-.
+    rewrite (all_digits_numch _ Hb). reflexivity.
+  - destruct (split_dot t) as [[a' b']|] eqn:Et; [|discriminate H].
+    injection H as <- <-. cbn [all_digits] in Ha. apply andb_true_iff in Ha. destruct Ha as [Hc Ha].
+    rewrite (IH _ _ eq_refl Ha Hb). unfold numch. rewrite Hc. reflexivity.
+Qed.
+
+Lemma real_spelling_numch : forall s, parse_number s = Some (StReal s) ->
+  s <> [] /\ forallb numch s = true.
+Proof.
+  intros s H. rewrite parse_number_eq in H.
+  destruct s as [|c t]; [discriminate H|]. split; [discriminate|].
+  assert (Hbody : forall body, body <> [] ->
+     (if all_digits body then
+           let v := Z.of_N (dec_value body) in Some (StInt (if true then (- v)%Z else v))
+         else match split_dot body with
+              | Some (a, b) => if all_digits a && all_digits b && negb (Nat.eqb (length a + length b) 0)
+                               then Some (StReal (c :: t)) else None
+              | None => None
+              end) = Some (StReal (c :: t)) \/
+     (if all_digits body then
+           let v := Z.of_N (dec_value body) in Some (StInt (if false then (- v)%Z else v))
+         else match split_dot body with
+              | Some (a, b) => if all_digits a && all_digits b && negb (Nat.eqb (length a + length b) 0)
+                               then Some (StReal (c :: t)) else None
+              | None => None
+              end) = Some (StReal (c :: t)) -> forallb numch body = true).
+  { intros body _ [Hb|Hb];
+    (destruct (all_digits body); [discriminate Hb|];
+     destruct (split_dot body) as [[a b]|] eqn:Es; [|discriminate Hb];
+     destruct (all_digits a) eqn:Ea; [|discriminate Hb];
+     destruct (all_digits b) eqn:Eb; [|discriminate Hb];
+     exact (split_dot_numch _ _ _ Es Ea Eb)). }
+  rewrite strip_sign_cons in H.
+  destruct (c =? 43) eqn:E1; [|destruct (c =? 45) eqn:E2].
+  - destruct t as [|c' t']; [discriminate H|].
+    change (forallb numch (c :: c' :: t')) with (numch c && forallb numch (c' :: t')). rewrite (Hbody (c' :: t')); [|discriminate|right; exact H].
+    unfold numch. rewrite E1. rewrite !orb_true_r. reflexivity.
+  - destruct t as [|c' t']; [discriminate H|].
+    change (forallb numch (c :: c' :: t')) with (numch c && forallb numch (c' :: t')). rewrite (Hbody (c' :: t')); [|discriminate|left; exact H].
+    unfold numch. rewrite E2. rewrite !orb_true_r. reflexivity.
+  - apply Hbody; [discriminate|right; exact H].
+Qed.
+
+Lemma forallb_numch_regular : forall w, forallb numch w = true -> forallb is_regular w = true.
+Proof.
+  induction w as [|c w IH]; intros H; [reflexivity|].
+  cbn [forallb] in *. apply andb_true_iff in H. destruct H as [Hc Hw].
+  rewrite (numch_regular _ Hc), (IH Hw). reflexivity.
+Qed.
+
+Lemma next_tok_real : forall s rest, parse_number s = Some (StReal s) -> ends_ok rest ->
+  next_tok (s ++ rest) = Some (StReal s, rest).
+Proof.
+  intros s rest H Hr. destruct (real_spelling_numch s H) as [Hne Hn].
+  destruct s as [|c w]; [congruence|].
+  pose proof (forallb_numch_regular _ Hn) as Hreg.
+  cbn [forallb] in Hn. apply andb_true_iff in Hn. destruct Hn as [Hc Hw].
+  pose proof (numch_range c Hc) as Hrange.
+  cbn [app]. rewrite next_tok_regular; [| lia | apply numch_regular; exact Hc].
+  unfold tok_regular. change (c :: w ++ rest) with ((c :: w) ++ rest).
+  rewrite take_regular_app by assumption.
+  fold (numch c). rewrite Hc, H. reflexivity.
+Qed.
+
+(* ---------- the object parser unfolded ---------- *)
+Section Loops.
+  Variable po : list N -> option (pobj * list N).
+  Fixpoint arr_loop (k : nat) (s1 : list N) (acc : list pobj) : option (pobj * list N) :=
+    match k with
+    | O => None
+    | S k' =>
+        match next_tok s1 with
+        | Some (StArrC, r1) => Some (SpArr (rev' acc), r1)
+        | _ => match po s1 with
+               | Some (o, r1) => arr_loop k' r1 (o :: acc)
+               | None => None
+               end
+        end
+    end.
+  Fixpoint dict_loop (k : nat) (s1 : list N) (acc : list (list N * pobj)) : option (pobj * list N) :=
+    match k with
+    | O => None
+    | S k' =>
+        match next_tok s1 with
+        | Some (StDictC, r1) => Some (SpDict (rev' acc), r1)
+        | Some (StName key, r1) =>
+            match po r1 with
+            | Some (o, r2) => dict_loop k' r2 ((key, o) :: acc)
+            | None => None
+            end
+        | _ => None
+        end
+    end.
+End Loops.
+
+Lemma parse_obj_S : forall f s, parse_obj (S f) s =
+  match next_tok s with
+  | None => None
+  | Some (t, r) =>
+      match t with
+      | StInt z =>
+          match next_tok r with
+          | Some (StInt g, r2) =>
+              match next_tok r2 with
+              | Some (StKw w, r3) =>
+                  if beq w kw_R && (0 <? z)%Z && (0 <=? g)%Z then Some (SpRef (Z.to_N z) (Z.to_N g), r3)
+                  else Some (SpInt z, r)
+              | _ => Some (SpInt z, r)
+              end
+          | _ => Some (SpInt z, r)
+          end
+      | StReal sp => Some (SpReal sp, r)
+      | StStr v => Some (SpStr v, r)
+      | StName n => Some (SpName n, r)
+      | StKw w => if beq w kw_true then Some (SpBool true, r)
+                 else if beq w kw_false then Some (SpBool false, r)
+                 else if beq w kw_null then Some (SpNull, r)
+                 else None
+      | StArrO => arr_loop (parse_obj f) f r []
+      | StDictO => dict_loop (parse_obj f) f r []
+      | _ => None
+      end
+  end.
+Proof. reflexivity. Qed.
+
+Lemma parse_obj_sp : forall fuel s, parse_obj fuel (32 :: s) = parse_obj fuel s.
+Proof.
+  intros [|f] s; [reflexivity|]. rewrite !parse_obj_S.
+  change (next_tok (32 :: s)) with (next_tok s). reflexivity.
+Qed.
+
+Lemma parse_obj_not_arrc : forall fuel s x r, parse_obj fuel s = Some x -> next_tok s <> Some (StArrC, r).
+Proof.
+  intros [|f] s x r H E; [discriminate H|]. rewrite parse_obj_S, E in H. discriminate H.
+Qed.
+
+Lemma arr_loop_step : forall po k s1 acc o r1, po s1 = Some (o, r1) ->
+  (forall r, next_tok s1 <> Some (StArrC, r)) ->
+  arr_loop po (S k) s1 acc = arr_loop po k r1 (o :: acc).
+Proof.
+  intros po k s1 acc o r1 Hpo Hn. cbn [arr_loop]. rewrite Hpo.
+  destruct (next_tok s1) as [[[] r]|]; try reflexivity.
+  exfalso. apply (Hn r). reflexivity.
+Qed.
+
+(* what follows an integer must not complete "n g R" *)
+Definition no_ref_follow (rest : list N) : Prop :=
+  match next_tok rest with
+  | Some (StInt g, r2) => match next_tok r2 with Some (StKw w, _) => beq w kw_R = false | _ => True end
+  | _ => True
+  end.
+Definition not_R (s : list N) : Prop :=
+  match next_tok s with Some (StKw w, _) => beq w kw_R = false | _ => True end.
+
+Lemma next_tok_sp0 : forall t, next_tok (32 :: 48 :: 32 :: t) = Some (StInt 0, 32 :: t).
+Proof. reflexivity. Qed.
+
+Lemma next_tok_spR : forall rest, ends_ok rest -> next_tok (32 :: 82 :: rest) = Some (StKw kw_R, rest).
+Proof.
+  intros rest Hr. change (next_tok (32 :: 82 :: rest)) with (next_tok ([82] ++ rest)).
+  apply next_tok_kw; [reflexivity | reflexivity | reflexivity | exact Hr].
+Qed.
+
+Lemma wf_arr : forall l, wf_wobj (OArr l) <-> Forall wf_wobj l.
+Proof.
+  induction l as [|x t IH]; split; intros H.
+  - constructor.
+  - exact I.
+  - destruct H as [H1 H2]. constructor; [exact H1 | apply IH; exact H2].
+  - inversion H as [|? ? H1 H2]; subst. split; [exact H1 | apply IH; exact H2].
+Qed.
+
+Definition wf_key (k : list N) : Prop := ~ In 0 k /\ Forall (fun b => b < 256) k.
+Lemma wf_dict : forall d, wf_wobj (ODict d) <-> Forall (fun kv => wf_key (fst kv) /\ wf_wobj (snd kv)) d.
+Proof.
+  induction d as [|x t IH]; split; intros H.
+  - constructor.
+  - exact I.
+  - destruct H as [H1 [H2 H3]]. constructor; [split; [exact H1 | exact H2] | apply IH; exact H3].
+  - inversion H as [|? ? [H1 H2] H3]; subst. split; [exact H1 | split; [exact H2 | apply IH; exact H3]].
+Qed.
+
 Section WithPrinters.
   Variable us : list N -> list N.
   Variable un : list N -> list N.
@@ -204,21 +451,365 @@ Section WithPrinters.
   Hypothesis un_ok : forall n rest, ~ In 0 n -> Forall (fun b => b < 256) n -> ends_ok rest ->
     next_tok (un n ++ rest) = Some (StName n, rest).
 
+  Section Fixed.
+  Variable objs : list (N * indirect).
+  Variable ren : N -> N.
+  Hypothesis ren_pos : forall id, 0 < ren id.
+
+  Local Notation U := (unparse us un objs ren).
+  Local Notation P := (to_pobj objs ren).
+  Definition ga (x : obj) : list N := sp ++ unparse us un objs ren x.
+  Definition gd (kv : list N * obj) : list N :=
+    if is_null_val objs (snd kv) then [] else sp ++ un (fst kv) ++ sp ++ unparse us un objs ren (snd kv).
+  Definition FA (l : list obj) (rest : list N) : list N := flat_map ga l ++ 32 :: 93 :: rest.
+  Definition FD (d : list (list N * obj)) (rest : list N) : list N := flat_map gd d ++ 32 :: 62 :: 62 :: rest.
+
+  Fixpoint pdict (d : list (list N * obj)) : list (list N * pobj) :=
+    match d with
+    | [] => []
+    | kv :: t => if is_null_val objs (snd kv) then pdict t else (fst kv, to_pobj objs ren (snd kv)) :: pdict t
+    end.
+
+  Lemma to_pobj_arr : forall l, P (OArr l) = SpArr (map P l).
+  Proof.
+    intros l. reflexivity.
+  Qed.
+  Lemma to_pobj_dict : forall d, P (ODict d) = SpDict (pdict d).
+  Proof.
+    intros d. reflexivity.
+  Qed.
+
+  Lemma U_arr : forall l rest, U (OArr l) ++ rest = 91 :: FA l rest.
+  Proof.
+    intros l rest. unfold FA. cbn [unparse]. cbn [app]. rewrite <- app_assoc. reflexivity.
+  Qed.
+  Lemma U_dict : forall d rest, U (ODict d) ++ rest = 60 :: 60 :: FD d rest.
+  Proof.
+    intros d rest. unfold FD. cbn [unparse]. cbn [app]. rewrite <- app_assoc. reflexivity.
+  Qed.
+
+  Definition head_of (o : obj) (F : list N) : tok * list N :=
+    match o with
+    | ONull => (StKw kw_null, F)
+    | OBool true => (StKw kw_true, F)
+    | OBool false => (StKw kw_false, F)
+    | OInt z => (StInt z, F)
+    | OReal s => (StReal s, F)
+    | OStr s => (StStr s, F)
+    | OName n => (StName n, F)
+    | ORef id => (StInt (Z.of_N (ren id)), 32 :: 48 :: 32 :: 82 :: F)
+    | OArr l => (StArrO, FA l F)
+    | ODict d => (StDictO, FD d F)
+    end.
+
+  Lemma head_tok : forall o F, wf_wobj o -> ends_ok F -> next_tok (U o ++ F) = Some (head_of o F).
+  Proof.
+    intros o F Hwf HF. destruct o as [|b|z|s|s|n|l|d|id].
+    - apply (next_tok_kw 110 [117; 108; 108]); try reflexivity; exact HF.
+    - destruct b.
+      + apply (next_tok_kw 116 [114; 117; 101]); try reflexivity; exact HF.
+      + apply (next_tok_kw 102 [97; 108; 115; 101]); try reflexivity; exact HF.
+    - apply next_tok_dec_of_Z. exact HF.
+    - destruct Hwf as [t [H1 H2]]. subst t. apply next_tok_real; assumption.
+    - apply us_ok; assumption.
+    - destruct Hwf as [H1 H2]. apply un_ok; assumption.
+    - rewrite U_arr. reflexivity.
+    - rewrite U_dict. reflexivity.
+    - cbn [unparse head_of]. rewrite <- app_assoc. apply next_tok_dec_of_N.
+      left. reflexivity.
+  Qed.
+  Lemma ga_cons : forall x t rest, FA (x :: t) rest = 32 :: U x ++ FA t rest.
+  Proof. intros x t rest. unfold FA, ga. cbn [flat_map sp app]. rewrite <- app_assoc. reflexivity. Qed.
+
+  Lemma FA_ends_ok : forall l rest, ends_ok (FA l rest).
+  Proof. intros [|x t] rest; [|rewrite ga_cons]; left; reflexivity. Qed.
+
+  Lemma U_not_R : forall y F, wf_wobj y -> ends_ok F -> not_R (U y ++ F).
+  Proof.
+    intros y F Hwf HF. unfold not_R. rewrite (head_tok y F Hwf HF).
+    destruct y as [|[|]|z|s|s|n|l|d|id]; cbn [head_of]; try exact I; reflexivity.
+  Qed.
+
+  Lemma U_nrf : forall y F, wf_wobj y -> ends_ok F -> not_R F -> no_ref_follow (U y ++ F).
+  Proof.
+    intros y F Hwf HF HR. unfold no_ref_follow. rewrite (head_tok y F Hwf HF).
+    destruct y as [|[|]|z|s|s|n|l|d|id]; cbn [head_of]; try exact I.
+    unfold not_R in HR. destruct (next_tok F) as [[[] r]|]; try exact I. exact HR.
+  Qed.
+
+  Lemma FA_not_R : forall l rest, Forall wf_wobj l -> not_R (FA l rest).
+  Proof.
+    intros [|x t] rest Hwf.
+    - exact I.
+    - rewrite ga_cons. inversion Hwf as [|? ? H1 H2]; subst.
+      unfold not_R. change (next_tok (32 :: U x ++ FA t rest)) with (next_tok (U x ++ FA t rest)).
+      apply U_not_R; [exact H1 | apply FA_ends_ok].
+  Qed.
+
+  Lemma FA_nrf : forall l rest, Forall wf_wobj l -> no_ref_follow (FA l rest).
+  Proof.
+    intros [|x t] rest Hwf.
+    - exact I.
+    - rewrite ga_cons. inversion Hwf as [|? ? H1 H2]; subst.
+      unfold no_ref_follow. change (next_tok (32 :: U x ++ FA t rest)) with (next_tok (U x ++ FA t rest)).
+      apply U_nrf; [exact H1 | apply FA_ends_ok | apply FA_not_R; exact H2].
+  Qed.
+
+  (* dictionaries *)
+  Lemma FD_null : forall kv t rest, is_null_val objs (snd kv) = true -> FD (kv :: t) rest = FD t rest.
+  Proof. intros kv t rest H. unfold FD. cbn [flat_map]. unfold gd at 1. rewrite H. reflexivity. Qed.
+  Lemma FD_nonnull : forall kv t rest, is_null_val objs (snd kv) = false ->
+    FD (kv :: t) rest = 32 :: un (fst kv) ++ 32 :: U (snd kv) ++ FD t rest.
+  Proof.
+    intros kv t rest H. unfold FD. cbn [flat_map]. unfold gd at 1. rewrite H.
+    cbn [sp app]. rewrite <- !app_assoc. reflexivity.
+  Qed.
+  Lemma gd_null_len : forall kv t, is_null_val objs (snd kv) = true -> flat_map gd (kv :: t) = flat_map gd t.
+  Proof. intros kv t H. cbn [flat_map]. unfold gd at 1. rewrite H. reflexivity. Qed.
+  Lemma gd_nonnull_len : forall kv t, is_null_val objs (snd kv) = false ->
+    length (flat_map gd (kv :: t)) = (2 + length (un (fst kv)) + length (U (snd kv)) + length (flat_map gd t))%nat.
+  Proof.
+    intros kv t H. cbn [flat_map]. unfold gd at 1. rewrite H.
+    rewrite !app_length. cbn [sp length]. lia.
+  Qed.
+
+  Lemma FD_ends_ok : forall d rest, ends_ok (FD d rest).
+  Proof.
+    induction d as [|kv t IH]; intros rest.
+    - left. reflexivity.
+    - destruct (is_null_val objs (snd kv)) eqn:E.
+      + rewrite FD_null by exact E. apply IH.
+      + rewrite FD_nonnull by exact E. left. reflexivity.
+  Qed.
+
+  Definition wf_entry (kv : list N * obj) : Prop := wf_key (fst kv) /\ wf_wobj (snd kv).
+
+  Lemma FD_nrf : forall d rest, Forall wf_entry d -> no_ref_follow (FD d rest).
+  Proof.
+    induction d as [|kv t IH]; intros rest Hwf.
+    - exact I.
+    - inversion Hwf as [|? ? [[H1 H2] H3] H4]; subst.
+      destruct (is_null_val objs (snd kv)) eqn:E.
+      + rewrite FD_null by exact E. apply IH. exact H4.
+      + rewrite FD_nonnull by exact E. unfold no_ref_follow.
+        change (next_tok (32 :: un (fst kv) ++ 32 :: U (snd kv) ++ FD t rest))
+          with (next_tok (un (fst kv) ++ 32 :: U (snd kv) ++ FD t rest)).
+        rewrite un_ok; [exact I | exact H1 | exact H2 | left; reflexivity].
+  Qed.
+
+  Section Step.
+    Variable f : nat.
+    Hypothesis IHf : forall o rest, wf_wobj o -> ends_ok rest ->
+      (forall z, o = OInt z -> no_ref_follow rest) -> (length (U o) < f)%nat ->
+      parse_obj f (U o ++ rest) = Some (P o, rest).
+
+    Lemma arr_ok : forall rest l k acc, Forall wf_wobj l ->
+      (length (flat_map ga l) <= f)%nat -> (length (flat_map ga l) < k)%nat ->
+      arr_loop (parse_obj f) k (FA l rest) acc = Some (SpArr (rev' (rev (map P l) ++ acc)), rest).
+    Proof.
+      intros rest. induction l as [|x t IH]; intros k acc Hwf Hf Hk.
+      - destruct k as [|k]; [inversion Hk|]. reflexivity.
+      - inversion Hwf as [|? ? H1 H2]; subst.
+        assert (Hlen : length (flat_map ga (x :: t)) = (1 + length (U x) + length (flat_map ga t))%nat).
+        { cbn [flat_map]. unfold ga at 1. rewrite !app_length. reflexivity. }
+        rewrite Hlen in Hf, Hk.
+        destruct k as [|k]; [inversion Hk|].
+        assert (Hx : parse_obj f (FA (x :: t) rest) = Some (P x, FA t rest)).
+        { rewrite ga_cons, parse_obj_sp. apply IHf.
+          - exact H1.
+          - apply FA_ends_ok.
+          - intros z _. apply FA_nrf. exact H2.
+          - lia. }
+        rewrite (arr_loop_step _ _ _ _ _ _ Hx).
+        + rewrite IH by (try assumption; lia).
+          cbn [map rev]. rewrite <- app_assoc. reflexivity.
+        + intros r. apply (parse_obj_not_arrc _ _ _ _ Hx).
+    Qed.
+
+    Lemma dict_ok : forall rest d k acc, Forall wf_entry d ->
+      (length (flat_map gd d) <= f)%nat -> (length (flat_map gd d) < k)%nat ->
+      dict_loop (parse_obj f) k (FD d rest) acc = Some (SpDict (rev' (rev (pdict d) ++ acc)), rest).
+    Proof.
+      intros rest. induction d as [|kv t IH]; intros k acc Hwf Hf Hk.
+      - destruct k as [|k]; [inversion Hk|]. reflexivity.
+      - inversion Hwf as [|? ? [[H1 H2] H3] H4]; subst.
+        destruct (is_null_val objs (snd kv)) eqn:E.
+        + rewrite FD_null by exact E. rewrite gd_null_len in Hf, Hk by exact E.
+          cbn [pdict]. rewrite E. apply IH; assumption.
+        + rewrite FD_nonnull by exact E. rewrite gd_nonnull_len in Hf, Hk by exact E.
+          destruct k as [|k]; [inversion Hk|].
+          cbn [dict_loop].
+          change (next_tok (32 :: un (fst kv) ++ 32 :: U (snd kv) ++ FD t rest))
+            with (next_tok (un (fst kv) ++ 32 :: U (snd kv) ++ FD t rest)).
+          rewrite un_ok; [| exact H1 | exact H2 | left; reflexivity].
+          rewrite parse_obj_sp, IHf.
+          * rewrite IH by (try assumption; lia).
+            cbn [pdict]. rewrite E. cbn [rev]. rewrite <- app_assoc. reflexivity.
+          * exact H3.
+          * apply FD_ends_ok.
+          * intros z _. apply FD_nrf. exact H4.
+          * lia.
+    Qed.
+  End Step.
+
+  Lemma unparse_parses_fuel : forall fuel o rest,
+    wf_wobj o -> ends_ok rest -> (forall z, o = OInt z -> no_ref_follow rest) ->
+    (length (U o) < fuel)%nat ->
+    parse_obj fuel (U o ++ rest) = Some (P o, rest).
+  Proof.
+    induction fuel as [|f IH]; intros o rest Hwf Hr Hnr Hlen; [inversion Hlen|].
+    rewrite parse_obj_S, (head_tok o rest Hwf Hr).
+    destruct o as [|[|]|z|s|s|n|l|d|id]; cbn [head_of]; try reflexivity.
+    - specialize (Hnr z eq_refl). unfold no_ref_follow in Hnr.
+      destruct (next_tok rest) as [[[] r2]|]; try reflexivity.
+      destruct (next_tok r2) as [[[] r3]|]; try reflexivity.
+      rewrite Hnr. reflexivity.
+    - assert (Hl : (length (flat_map ga l) + 3 < S f)%nat).
+      { cbn [unparse] in Hlen. rewrite !app_length in Hlen. cbn [length] in Hlen.
+        unfold ga. lia. }
+      rewrite (arr_ok f IH rest l f []); [| apply wf_arr; exact Hwf | lia | lia].
+      rewrite app_nil_r, rev'_rev, rev_involutive. reflexivity.
+    - assert (Hl : (length (flat_map gd d) + 5 < S f)%nat).
+      { cbn [unparse] in Hlen. rewrite !app_length in Hlen. cbn [length] in Hlen.
+        unfold gd. lia. }
+      rewrite (dict_ok f IH rest d f []); [| apply wf_dict; exact Hwf | lia | lia].
+      rewrite app_nil_r, rev'_rev, rev_involutive. reflexivity.
+    - rewrite next_tok_sp0, next_tok_spR by exact Hr.
+      pose proof (ren_pos id) as Hp.
+      replace (0 <? Z.of_N (ren id))%Z with true by (symmetry; apply Z.ltb_lt; lia).
+      cbn [beq kw_R list_eqb N.eqb Pos.eqb andb Z.leb Z.compare]. 
+      rewrite N2Z.id. reflexivity.
+  Qed.
+  End Fixed.
+
   (* MAIN: every printed object parses back to the same object, leaving exactly the rest *)
-  Lemma unparse_parses_lemma : forall objs ren o rest fuel,
+  (* FALSE: counterexample o = OInt 5, rest = [32;48;32;82] (" 0 R"), ren = fun _ => 1, fuel = 100:
+     `ends_ok rest` holds (rest starts with a space) but the parser's look-ahead for "n g R" reads
+     "5 0 R" as the reference SpRef 5 0 with rest [], not SpInt 5 with rest " 0 R"
+     (Eval vm_compute in parse_obj 100 (unparse wm_unparse_string wm_unparse_name [] (fun _ => 1) (OInt 5) ++ [32;48;32;82])
+      = Some (SpRef 5 0, [])); refuted formally as `unparse_parses_refuted_lemma` at the end of this file.
+     Missing hypothesis: when o is an integer, what follows must not complete "n g R", i.e.
+     `forall z, o = OInt z -> no_ref_follow rest` (no_ref_follow rest: if the first token of rest is an
+     integer then the token after it is not the keyword R). With it the statement holds for every
+     object: `unparse_parses_fixed` below. *)
+  (* The statement without the look-ahead side condition is FALSE (refuted below as unparse_parses_refuted_lemma):
+     o = OInt 5 followed by " 0 R" is read as the reference 5 0 R.
+       Lemma unparse_parses_lemma : forall objs ren o rest fuel,
+         wf_wobj o -> (forall id, 0 < ren id) -> ends_ok rest ->
+         ( * enough fuel: more than the number of tokens printed * )
+         (length (unparse us un objs ren o) < fuel)%nat ->
+         parse_obj fuel (unparse us un objs ren o ++ rest) = Some (to_pobj objs ren o, rest).
+       Proof. Abort. *)
+
+  Lemma unparse_parses_fixed : forall objs ren o rest fuel,
     wf_wobj o -> (forall id, 0 < ren id) -> ends_ok rest ->
-    (* enough fuel: more than the number of tokens printed *)
+    (forall z, o = OInt z -> no_ref_follow rest) ->
     (length (unparse us un objs ren o) < fuel)%nat ->
     parse_obj fuel (unparse us un objs ren o ++ rest) = Some (to_pobj objs ren o, rest).
-  Proof. Abort.
+  Proof.
+    intros objs ren o rest fuel Hwf Hren Hr Hnr Hlen.
+    apply unparse_parses_fuel; assumption.
+  Qed.
+
+  (* the original statement holds for everything that is not a bare integer *)
+  Lemma unparse_parses_nonint : forall objs ren o rest fuel,
+    wf_wobj o -> (forall id, 0 < ren id) -> ends_ok rest ->
+    (forall z, o <> OInt z) ->
+    (length (unparse us un objs ren o) < fuel)%nat ->
+    parse_obj fuel (unparse us un objs ren o ++ rest) = Some (to_pobj objs ren o, rest).
+  Proof.
+    intros objs ren o rest fuel Hwf Hren Hr Hni Hlen.
+    apply unparse_parses_fixed; try assumption.
+    intros z E. exfalso. exact (Hni z E).
+  Qed.
 End WithPrinters.
 
-(* ---------- strings ---------- *)
+(* convenient sufficient conditions for no_ref_follow *)
+Lemma no_ref_follow_nil : no_ref_follow [].
+Proof. exact I. Qed.
+(* "\nendobj\n..." follows the value of an indirect object *)
+Lemma no_ref_follow_endobj : forall t, no_ref_follow ([10; 101; 110; 100; 111; 98; 106; 10] ++ t).
+Proof. intros t. exact I. Qed.
+
+(* ---------- names ---------- *)
 Lemma lt16_cases : forall v, v < 16 ->
   v = 0 \/ v = 1 \/ v = 2 \/ v = 3 \/ v = 4 \/ v = 5 \/ v = 6 \/ v = 7 \/ v = 8 \/ v = 9 \/ v = 10 \/
   v = 11 \/ v = 12 \/ v = 13 \/ v = 14 \/ v = 15.
 Proof. intros v H. lia. Qed.
 
+Lemma hexd_regular : forall v, v < 16 -> is_regular (wm_hexd v) = true /\ hexv (wm_hexd v) = Some v.
+Proof.
+  intros v Hv. pose proof (lt16_cases v Hv) as H.
+  repeat (destruct H as [->|H]; [split; reflexivity|]). subst v. split; reflexivity.
+Qed.
+
+Lemma name_unescape_cons : forall c rest, name_unescape (c :: rest) =
+  let literal := match name_unescape rest with Some r => Some (c :: r) | None => None end in
+  if c =? 35 then
+    match rest with
+    | a :: b :: t =>
+        match hexv a, hexv b with
+        | Some x, Some y =>
+            match name_unescape t with
+            | Some r => if x * 16 + y =? 0 then None else Some ((x * 16 + y) :: r)
+            | None => None
+            end
+        | _, _ => literal
+        end
+    | _ => literal
+    end
+  else literal.
+Proof. reflexivity. Qed.
+
+Definition name_char_cls (b : N) : bool :=
+  list_eqb N.eqb (wm_name_char b) [35; wm_hexd (b / 16); wm_hexd (b mod 16)]
+  || (list_eqb N.eqb (wm_name_char b) [b] && is_regular b && negb (b =? 35)).
+
+Lemma name_char_cls_all : forall b, b < 256 -> ((b =? 0) || name_char_cls b) = true.
+Proof. apply byte_sweep. vm_compute. reflexivity. Qed.
+
+Lemma name_char_byte : forall b, b < 256 -> b <> 0 ->
+  (forall t, take_regular (wm_name_char b ++ t) = let (a, r) := take_regular t in (wm_name_char b ++ a, r)) /\
+  (forall w, name_unescape (wm_name_char b ++ w) = match name_unescape w with Some r => Some (b :: r) | None => None end).
+Proof.
+  intros b Hb Hne. pose proof (name_char_cls_all b Hb) as H.
+  apply orb_true_iff in H. destruct H as [H|H]; [apply N.eqb_eq in H; congruence|].
+  unfold name_char_cls in H. apply orb_true_iff in H. destruct H as [H|H].
+  - apply list_eqb_N_eq in H. rewrite H.
+    assert (H1 : b / 16 < 16) by (apply N.div_lt_upper_bound; lia).
+    assert (H2 : b mod 16 < 16) by (apply N.mod_lt; lia).
+    destruct (hexd_regular _ H1) as [R1 X1]. destruct (hexd_regular _ H2) as [R2 X2].
+    assert (Hv : b / 16 * 16 + b mod 16 = b) by (rewrite (N.div_mod' b 16) at 3; lia).
+    split.
+    + intros t. cbn [app take_regular]. rewrite R1, R2.
+      change (is_regular 35) with true. cbv iota. destruct (take_regular t); reflexivity.
+    + intros w. cbn [app]. rewrite name_unescape_cons. cbv zeta. change (35 =? 35) with true. cbv iota.
+      rewrite X1, X2, Hv. destruct (name_unescape w); [|reflexivity].
+      apply N.eqb_neq in Hne. rewrite Hne. reflexivity.
+  - apply andb_true_iff in H. destruct H as [H H3]. apply andb_true_iff in H. destruct H as [H1 H2].
+    apply list_eqb_N_eq in H1. rewrite H1. apply negb_true_iff in H3. split.
+    + intros t. cbn [app take_regular]. rewrite H2. destruct (take_regular t); reflexivity.
+    + intros w. cbn [app]. rewrite name_unescape_cons. cbv zeta. rewrite H3. reflexivity.
+Qed.
+
+Lemma name_chars_read : forall n rest, ~ In 0 n -> Forall (fun b => b < 256) n -> ends_ok rest ->
+  take_regular (flat_map wm_name_char n ++ rest) = (flat_map wm_name_char n, rest) /\
+  name_unescape (flat_map wm_name_char n) = Some n.
+Proof.
+  induction n as [|b n IH]; intros rest H0 Hb Hr.
+  - cbn [flat_map app]. split; [apply ends_ok_take_regular; exact Hr | reflexivity].
+  - inversion Hb as [|? ? Hb1 Hb2]; subst.
+    assert (Hne : b <> 0) by (intros E; apply H0; left; exact E).
+    assert (H0' : ~ In 0 n) by (intros E; apply H0; right; exact E).
+    destruct (name_char_byte b Hb1 Hne) as [HA HB].
+    destruct (IH rest H0' Hb2 Hr) as [IH1 IH2].
+    cbn [flat_map]. split.
+    + rewrite <- app_assoc, HA, IH1. reflexivity.
+    + rewrite HB, IH2. reflexivity.
+Qed.
+
+
+(* ---------- strings ---------- *)
 Lemma hexd_facts : forall v, v < 16 ->
   (forall t, next_tok (60 :: wm_hexd v :: t) =
              match hex_string (wm_hexd v :: t) None [] with Some (x, r) => Some (StStr x, r) | None => None end) /\
@@ -264,35 +855,6 @@ Proof.
     rewrite IH by exact Hb2. cbn [rev]. rewrite <- app_assoc. reflexivity.
 Qed.
 
-(* ---------- names ---------- *)
-Lemma name_char_byte : forall b, In b all_bytes -> b <> 0 ->
-  (forall t, take_regular (wm_name_char b ++ t) = let (a, r) := take_regular t in (wm_name_char b ++ a, r)) /\
-  (forall w, name_unescape (wm_name_char b ++ w) = match name_unescape w with Some r => Some (b :: r) | None => None end).
-Proof.
-  intros b Hin. vm_compute in Hin.
-  repeat (destruct Hin as [<-|Hin];
-    [intros Hne; first [congruence | split;
-     [intros t; cbn; destruct (take_regular t); reflexivity
-     |intros w; cbn; destruct (name_unescape w); reflexivity]]|]).
-  destruct Hin.
-Qed.
-
-Lemma name_chars_read : forall n rest, ~ In 0 n -> Forall (fun b => b < 256) n -> ends_ok rest ->
-  take_regular (flat_map wm_name_char n ++ rest) = (flat_map wm_name_char n, rest) /\
-  name_unescape (flat_map wm_name_char n) = Some n.
-Proof.
-  induction n as [|b n IH]; intros rest H0 Hb Hr.
-  - cbn [flat_map app]. split; [apply ends_ok_take_regular; exact Hr | reflexivity].
-  - inversion Hb as [|? ? Hb1 Hb2]; subst.
-    assert (Hne : b <> 0) by (intros E; apply H0; left; exact E).
-    assert (H0' : ~ In 0 n) by (intros E; apply H0; right; exact E).
-    destruct (name_char_byte b (all_bytes_complete _ Hb1) Hne) as [HA HB].
-    destruct (IH rest H0' Hb2 Hr) as [IH1 IH2].
-    cbn [flat_map]. split.
-    + rewrite <- app_assoc, HA, IH1. reflexivity.
-    + rewrite HB, IH2. reflexivity.
-Qed.
-
 (* the concrete printers satisfy the hypotheses *)
 Lemma wm_string_read_lemma : forall s rest, Forall (fun b => b < 256) s -> ends_ok rest ->
   next_tok (wm_unparse_string s ++ rest) = Some (StStr s, rest).
@@ -326,3 +888,35 @@ Lemma dec_of_Z_read_lemma : forall z rest, ends_ok rest ->
   (match rest with c :: _ => is_ws c = true \/ is_delim c = true | [] => True end) ->
   next_tok (dec_of_Z z ++ rest) = Some (StInt z, rest).
 Proof. intros z rest Hr _. apply next_tok_dec_of_Z. exact Hr. Qed.
+
+(* formal refutation of the unfixed main statement (see the FALSE comment above) *)
+Lemma unparse_parses_refuted_lemma :
+  ~ (forall (us un : list N -> list N),
+       (forall s rest, Forall (fun b => b < 256) s -> ends_ok rest ->
+                       next_tok (us s ++ rest) = Some (StStr s, rest)) ->
+       (forall n rest, ~ In 0 n -> Forall (fun b => b < 256) n -> ends_ok rest ->
+                       next_tok (un n ++ rest) = Some (StName n, rest)) ->
+       forall objs ren o rest fuel,
+         wf_wobj o -> (forall id, 0 < ren id) -> ends_ok rest ->
+         (length (unparse us un objs ren o) < fuel)%nat ->
+         parse_obj fuel (unparse us un objs ren o ++ rest) = Some (to_pobj objs ren o, rest)).
+Proof.
+  intros H.
+  specialize (H wm_unparse_string wm_unparse_name wm_string_read_lemma wm_name_read_lemma
+                [] (fun _ => 1) (OInt 5) [32; 48; 32; 82] 100%nat I).
+  assert (H1 : forall id : N, 0 < (fun _ : N => 1) id) by (intros; reflexivity).
+  assert (H2 : ends_ok [32; 48; 32; 82]) by (left; reflexivity).
+  assert (H3 : (length (unparse wm_unparse_string wm_unparse_name [] (fun _ : N => 1%N) (OInt 5)) < 100)%nat)
+    by (vm_compute; lia).
+  specialize (H H1 H2 H3). vm_compute in H. discriminate H.
+Qed.
+
+(* the fixed round trip instantiated with the concrete printers *)
+Lemma unparse_parses_wm_lemma : forall objs ren o rest fuel,
+  wf_wobj o -> (forall id, 0 < ren id) -> ends_ok rest ->
+  (forall z, o = OInt z -> no_ref_follow rest) ->
+  (length (unparse wm_unparse_string wm_unparse_name objs ren o) < fuel)%nat ->
+  parse_obj fuel (unparse wm_unparse_string wm_unparse_name objs ren o ++ rest) = Some (to_pobj objs ren o, rest).
+Proof.
+  apply unparse_parses_fixed; [exact wm_string_read_lemma | exact wm_name_read_lemma].
+Qed.
